@@ -68,11 +68,11 @@ CHECKS = {
                 note="Trusted: spec/groestl.py (validated against KATs with the S-box computed from its definition), intrinsic models incl. AESENCLAST. Block counts are symbolic 64-bit values, so 'beyond 255 / 65535 blocks' is covered by the padding rule.",
                 technique="compositional value-graph normalisation (S-box uninterpreted), exhaustive split over buffer positions"),
     "C08": dict(level="other", design="3/C08",
-                text="State types are plain owned data (recursive type-shape walk, 19 instantiations), clone is the bitwise identity and reset equals Default on a fully symbolic prior state (value graphs), and update(update(s,a),b) leaves the same state as update(s,a++b) for symbolic contents over boundary buffer positions and length pairs (108 compositions per type, per-block functions uninterpreted). With finalisation a function of the state (C04-C07) and no shared state (C18) this gives chunking, clone and reset invariance.",
+                text="State types are plain owned data (recursive type-shape walk, 19 instantiations), clone is the bitwise identity and reset equals Default on a fully symbolic prior state (value graphs), and update(update(s,a),b) leaves the same state as update(s,a++b) for symbolic contents over boundary buffer positions and length pairs (108 compositions per type, per-block functions uninterpreted). With finalisation a function of the state (C04-C07) and no shared state (C18) this gives chunking, clone and reset invariance. Thorough: buffer positions {0, 1, 17, bs/2, bs-1} x piece lengths incl. pieces of more than 4 and 8 blocks (405 compositions per type).",
                 note="Chunk lengths are a finite boundary family (0, 1, block-1, block, block+1, many blocks) per buffer position; block-buffer is interpreted from its real MIR, so its dependence on lengths is what is being exercised.",
                 technique="type-shape analysis + value-graph comparison of state transformers (composition vs. concatenation)"),
     "C17": dict(level=TV, design="3/C17",
-                text="All length/bit/block counters are symbolic full-width words in the update and finalisation value graphs of the four hash families: BLAKE's double-word bit counter with carry, Skein's byte tweak, Groestl's block counter and final count, JH's byte length and 64-bit bit-length field - so exactness holds across every word boundary, not just the sampled ones. Plus a def-use taint rule: no narrowing integer cast on a slice length or counter field anywhere in the hash crates, and 64-bit counter field types. Counter fields are recognised by type (integer or pair of words next to the block buffer / in Skein's State); the taint follows checked-arithmetic pairs.",
+                text="All length/bit/block counters are symbolic full-width words in the update and finalisation value graphs of the four hash families: BLAKE's double-word bit counter with carry, Skein's byte tweak, Groestl's block counter and final count, JH's byte length and 64-bit bit-length field - so exactness holds across every word boundary, not just the sampled ones. Plus a def-use taint rule: no narrowing integer cast on a slice length or counter field anywhere in the hash crates, and 64-bit counter field types. Counter fields are recognised by type (integer or pair of words next to the block buffer / in Skein's State); the taint follows checked-arithmetic pairs. Thorough: the finalisation rules for every buffer position; update rules include a mid-buffer position and pieces of more than 4 and 8 blocks.",
                 note="Per-block functions are uninterpreted here (C04-C07 decide them for symbolic counters). Format limits (counter overflow beyond 2^64 etc.) are outside the domain.",
                 technique="value-graph normalisation with symbolic counters + MIR def-use taint (narrowing casts)"),
     "C03": dict(level="other", design="3/C03",
@@ -80,7 +80,7 @@ CHECKS = {
                 note="Vocabulary-level equality per backend is C12/C13. SSE4.1 and AVX machines are the same types. Groestl's private dispatcher is not a ppv-lite86 backend and is not covered here. Big-endian cfg twins are not compiled on this target.",
                 technique="value graphs through dispatchers in 7 configurations + target-feature dataflow over the mono call graph with dominators"),
     "C02": dict(level="other", design="3/C02",
-                text="Bounded-history value graphs: for a finite family of seek/apply/current_pos histories around all the boundaries the property names (mid-block seeks, block edges, the low counter word's carry, the end of the 32-bit keystream, the top of the u64 range; re-seeking, repeated positions, requests after a failed request) every processed byte equals data XOR keystream[absolute position] for symbolic key/nonce/data, try_current_pos equals the absolute position after every step, the key and nonce words never change, and no overflow/bounds assertion or panic call is reachable (dev-profile MIR, so debug-only panics count). try_seek::<T> for all 7 SeekNum types x boundary values. The Buffer logic is interpreted from its real MIR; only refill/refill4 are replaced by their C14 semantics.",
+                text="Bounded-history value graphs: for a finite family of seek/apply/current_pos histories around all the boundaries the property names (mid-block seeks, block edges, the low counter word's carry, the end of the 32-bit keystream, the top of the u64 range; re-seeking, repeated positions, requests after a failed request) every processed byte equals data XOR keystream[absolute position] for symbolic key/nonce/data, try_current_pos equals the absolute position after every step, the key and nonce words never change, and no overflow/bounds assertion or panic call is reachable (dev-profile MIR, so debug-only panics count). try_seek::<T> for all 7 SeekNum types x boundary values. The Buffer logic is interpreted from its real MIR; only refill/refill4 are replaced by their C14 semantics. Request lengths include tails of exactly 3 and 7 whole blocks after the 256-byte chunks (192, 448).",
                 note="Sentence 1 of the property for ARBITRARY histories is not decided: that needs an inductive invariant over unbounded histories, which is outside this technique. The family is finite in operation sequences (quick ~520, thorough ~9000), complete in contents.",
                 technique="abstract interpretation of the real buffering code over symbolic contents for an enumerated family of operation sequences (positions/lengths are the case-split selectors)"),
     "C11": dict(level="other", design="3/C11",
